@@ -125,6 +125,7 @@ structure Resp where
   fg : Bool := false                 -- a storage Get / Set / Delete actually failed
   fs : Bool := false
   fd : Bool := false
+  early : Bool := false              -- … and it failed before the protected handler was entered
   deriving Repr, DecidableEq
 
 /-- request-scoped state -/
@@ -158,20 +159,27 @@ def storeLive (st : St) (k : Bytes) : Bool :=
 
 /-! ## Session back-end -/
 
+/-- the session id a request resolves to: `Locals(sessionIDContextKey)` or else the cookie -/
+def reqSid (q : Req) (c : Ctx) : Bytes :=
+  match c.sid with
+  | some i => i
+  | none => q.sc
+
+/-- store.go `getSession`, unknown id: a new session with a generated id, remembered in Locals -/
+def freshSess (sgen : Nat → Bytes) (c : Ctx) : Ctx × Option (Bytes × Option Tok) :=
+  let id := sgen c.st.nsid
+  ({ c with st := { c.st with nsid := c.st.nsid + 1 }, sid := some id, sgens := c.sgens ++ [id] }, some (id, none))
+
 /-- store.go `getSession` as reached through `Store.Get` (cookie source, no absolute timeout):
     id from Locals or the cookie; unknown → new id, stored in Locals. `none` = storage error. -/
 -- (the first component carries the fired-fault flag and the generator calls)
 def storeGet (sgen : Nat → Bytes) (q : Req) (c : Ctx) : Ctx × Option (Bytes × Option Tok) :=
-  let id0 := match c.sid with | some i => i | none => q.sc
-  let fresh (c : Ctx) : Ctx × Option (Bytes × Option Tok) :=
-    let id := sgen c.st.nsid
-    ({ c with st := { c.st with nsid := c.st.nsid + 1 }, sid := some id, sgens := c.sgens ++ [id] }, some (id, none))
-  if id0 ≠ [] then
+  if reqSid q c ≠ [] then
     if q.failGet then ({ c with fg := true }, none)
-    else match lookup c.st.sess id0 with
-      | some slot => (c, some (id0, slot))
-      | none => fresh c
-  else fresh c
+    else match lookup c.st.sess (reqSid q c) with
+      | some slot => (c, some (reqSid q c, slot))
+      | none => freshSess sgen c
+  else freshSess sgen c
 
 /-- session.go `Save` on a store session: cookie first, then `Storage.Set` -/
 def sessSave (q : Req) (c : Ctx) (id : Bytes) (slot : Option Tok) : Ctx :=
@@ -311,23 +319,27 @@ def decide' (cfg : Cfg) (sgen : Nat → Bytes) (q : Req) (c : Ctx) : Ctx × Deci
             | (c, false) => (c, .proceed [])
           else (c, .proceed t)
 
-/-- after the switch: generate if needed, create-or-extend, set the cookie, run the protected
+/-- after the switch, once the token is fixed: create-or-extend, set the cookie, run the protected
     handler (which may call `DeleteToken`) -/
-def finish (cfg : Cfg) (gen sgen : Nat → Bytes) (q : Req) (c : Ctx) (token : Bytes) : Ctx × Resp :=
-  let (c, token) :=
-    if token = [] then
-      let t := gen c.st.ntok
-      ({ c with st := { c.st with ntok := c.st.ntok + 1 }, gens := c.gens ++ [t] }, t)
-    else (c, token)
+def finishTail (cfg : Cfg) (sgen : Nat → Bytes) (q : Req) (c : Ctx) (token : Bytes) : Ctx × Resp :=
   match setRaw cfg sgen q c token with
   | (c, err) =>
-    if err && !isSafe q.method then (c, { pass := false, status := 403, ck := none })
+    -- faults up to here hit the middleware itself; later ones hit the handler's `DeleteToken`
+    let early := c.fg || c.fs || c.fd
+    if err && !isSafe q.method then (c, { pass := false, status := 403, ck := none, early := early })
     else if q.del then
-      if q.ck = [] then (c, { pass := true, status := 403, ck := some token })
+      if q.ck = [] then (c, { pass := true, status := 403, ck := some token, early := early })
       else match delRaw cfg sgen q c q.ck with
-        | (c, true) => (c, { pass := true, status := 403, ck := some token })
-        | (c, false) => (c, { pass := true, status := 200, ck := some [] })
-    else (c, { pass := true, status := 200, ck := some token })
+        | (c, true) => (c, { pass := true, status := 403, ck := some token, early := early })
+        | (c, false) => (c, { pass := true, status := 200, ck := some [], early := early })
+    else (c, { pass := true, status := 200, ck := some token, early := early })
+
+/-- after the switch: generate a token if needed (`KeyGenerator`), then `finishTail` -/
+def finish (cfg : Cfg) (gen sgen : Nat → Bytes) (q : Req) (c : Ctx) (token : Bytes) : Ctx × Resp :=
+  if token = [] then
+    let t := gen c.st.ntok
+    finishTail cfg sgen q { c with st := { c.st with ntok := c.st.ntok + 1 }, gens := c.gens ++ [t] } t
+  else finishTail cfg sgen q c token
 
 /-- session middleware: `initialize` (`getSession` by cookie) -/
 def mwLoad (sgen : Nat → Bytes) (q : Req) (c : Ctx) : Ctx :=
@@ -350,7 +362,8 @@ def handle (cfg : Cfg) (gen sgen : Nat → Bytes) (st : St) (q : Req) : St × Re
   let c := if cfg.backend = .sessMw then mwLoad sgen q c else c
   let (c, d) := decide' cfg sgen q c
   let (c, r) : Ctx × Resp := match d with
-    | .reject expire => (c, { pass := false, status := 403, ck := if expire then some [] else none })
+    | .reject expire => (c, { pass := false, status := 403, ck := if expire then some [] else none,
+                              early := c.fg || c.fs || c.fd })
     | .proceed t => finish cfg gen sgen q c t
   let c := if cfg.backend = .sessMw then mwSave c else c
   (c.st, { r with sc := c.sc, gens := c.gens, sgens := c.sgens, fg := c.fg, fs := c.fs, fd := c.fd })
